@@ -122,13 +122,17 @@ type Exec struct {
 	h        *Harness
 	paths    int
 	iterSrc  map[*Term]iterRole // symbolic iterator closures
+	iterSources map[int]*iterSource
+	iterOf      map[*Term]int
 	nIter    int
 	cellType map[int]types.Type
+	cellName map[int]string
 	fresh0   int // cells with id > fresh0 were allocated during the run
 	cover    map[*ssa.Function]bool
 	mergedFacts []*Term
 	globals     map[string]*ssa.Global
 	globalVals  map[string]*Term
+	initCells   map[int]*Term
 	initDone    map[*ssa.Package]bool
 	inInit      bool
 	discovering int
@@ -146,7 +150,7 @@ type iterRole struct {
 }
 
 func NewExec(c *Ctx, p *Program) *Exec {
-	return &Exec{c: c, prog: p, maxSteps: 400000, iterSrc: map[*Term]iterRole{}, cellType: map[int]types.Type{}, cover: map[*ssa.Function]bool{}, globals: map[string]*ssa.Global{}, globalVals: map[string]*Term{}, initDone: map[*ssa.Package]bool{}}
+	return &Exec{c: c, prog: p, maxSteps: 400000, iterSrc: map[*Term]iterRole{}, iterSources: map[int]*iterSource{}, iterOf: map[*Term]int{}, cellType: map[int]types.Type{}, cellName: map[int]string{}, cover: map[*ssa.Function]bool{}, globals: map[string]*ssa.Global{}, globalVals: map[string]*Term{}, initCells: map[int]*Term{}, initDone: map[*ssa.Package]bool{}}
 }
 
 func NewState() *State {
@@ -375,6 +379,9 @@ func (x *Exec) load(st *State, addr *Term, s *Sort) *Term {
 	case "cell":
 		v, ok := st.cells[addr.Idx]
 		if !ok {
+			if iv, ok2 := x.initCells[addr.Idx]; ok2 {
+				return iv // allocated by a package init (assumed immutable afterwards)
+			}
 			panic(fmt.Sprintf("load from unknown cell %d", addr.Idx))
 		}
 		return v
@@ -451,6 +458,12 @@ func (x *Exec) globalInit(addr *Term) *Term {
 		return nil
 	}
 	fin := outs[0].st
+	for id, v := range fin.cells {
+		x.initCells[id] = v
+	}
+	if x.fresh0 < x.nextCell && len(x.stack) == 0 {
+		// cells of package initialisers are older than the function under contract
+	}
 	for k, v := range fin.heap {
 		if strings.HasPrefix(k, "global:") {
 			x.globalVals[strings.TrimPrefix(k, "global:")] = v
@@ -474,7 +487,13 @@ func (x *Exec) loadArr(st *State, a *Term, elem *Sort) *Term {
 	c := x.c
 	switch a.Op {
 	case "cell":
-		return st.cells[a.Idx]
+		if v, ok := st.cells[a.Idx]; ok {
+			return v
+		}
+		if iv, ok := x.initCells[a.Idx]; ok {
+			return iv
+		}
+		panic(fmt.Sprintf("load from unknown array cell %d", a.Idx))
 	case "ite":
 		return c.Ite(a.Args[0], x.loadArr(st, a.Args[1], elem), x.loadArr(st, a.Args[2], elem))
 	case "faddr", "global":
@@ -582,6 +601,9 @@ func (x *Exec) isNilRef(p *Term) *Term {
 // running functions
 
 func (x *Exec) callFunc(st *State, fn *ssa.Function, args []*Term, bindings []*Term) []Outcome {
+	if traceCalls {
+		fmt.Fprintf(os.Stderr, "%*senter %s blocks=%d\n", len(x.stack)*2, "", fn.String(), len(fn.Blocks))
+	}
 	if x.inInit && fn.Name() == "init" && len(args) == 0 {
 		return []Outcome{{st: st, kind: ORet, val: x.c.Ctor(x.c.Unit)}}
 	}
@@ -595,6 +617,9 @@ func (x *Exec) callFunc(st *State, fn *ssa.Function, args []*Term, bindings []*T
 		return x.recSpecCall(st, fn, args)
 	}
 	x.cover[originOf(fn)] = true
+	if traceCalls {
+		fmt.Fprintf(os.Stderr, "%*scall %s\n", len(x.stack)*2, "", fn.String())
+	}
 	// recursion guard
 	for i := len(x.stack) - 1; i >= 0; i-- {
 		r := x.stack[i]
@@ -687,6 +712,8 @@ func (x *Exec) recSpecCall(st *State, fn *ssa.Function, args []*Term) []Outcome 
 	}
 	return []Outcome{{st: st, kind: ORet, val: app}}
 }
+
+var traceCalls = os.Getenv("GOVC_TRACE") != ""
 
 func originOf(fn *ssa.Function) *ssa.Function {
 	if o := fn.Origin(); o != nil {
@@ -782,6 +809,9 @@ func (x *Exec) runFrom(fr *Frame, st *State, b *ssa.BasicBlock, i int) []Outcome
 			case *ssa.Alloc:
 				et := ins.Type().(*types.Pointer).Elem()
 				fr.env[ins] = x.newCell(st, c.Zero(et), et)
+				if ins.Comment != "" {
+					x.cellName[x.nextCell] = ins.Comment
+				}
 			case *ssa.Store:
 				addr := x.val(fr, ins.Addr)
 				v := x.coerce(x.val(fr, ins.Val), ins.Addr.Type().Underlying().(*types.Pointer).Elem())
